@@ -238,6 +238,26 @@ fn mode_c08(seed: u64) {
 }
 // conformant foreign streams: every legal format choice, all csid forms, through the real deserializer
 fn mode_c06(seed: u64) {
+    // EXHAUSTIVE over chunk stream ids: one conformant stream that opens EVERY chunk stream id 2..=65599 with a full header
+    // (message stream id = the chunk stream id) and then sends a compressed (fmt 1) chunk on every one of them, in the
+    // minimal basic-header form and, for 64..=319, also in the 3-byte form.  A basic-header parse that maps two ids to the
+    // same slot (or an id to another legal id) makes some compressed chunk inherit a foreign message stream id.
+    {
+        let mut bytes = vec![]; let mut expect = vec![];
+        let form_of = |c: u32| if c <= 63 { 1u8 } else if c <= 319 { 2 } else { 3 };
+        for c in 2u32..=65599 { bytes.extend(ref_chunk(0, c, form_of(c), 10, 1, 8, c, &[c as u8])); expect.push(Msg { ts: 10, ty: 8, msid: c, data: vec![c as u8] }); }
+        for c in 2u32..=65599 { bytes.extend(ref_chunk(1, c, form_of(c), 5, 2, 9, c, &[1, c as u8])); expect.push(Msg { ts: 15, ty: 9, msid: c, data: vec![1, c as u8] }); }
+        for c in 64u32..=319 { bytes.extend(ref_chunk(2, c, 3, 7, 2, 9, c, &[2, c as u8])); expect.push(Msg { ts: 22, ty: 9, msid: c, data: vec![2, c as u8] }); }
+        let mut d = ChunkDeserializer::new();
+        match real_decode(&mut d, &[&bytes[..]]) {
+            Ok(got) => { if got != expect {
+                let k = got.iter().zip(expect.iter()).position(|(a, b)| a != b).unwrap_or(std::cmp::min(got.len(), expect.len()));
+                let e = expect.get(k).map(|m| (m.ts, m.ty, m.msid, m.data.clone())); let g = got.get(k).map(|m| (m.ts, m.ty, m.msid, m.data.clone()));
+                witness(format!("[c06] conformant stream: full-header 1-byte message (type 8, ts 10, message stream id = csid) on every chunk stream id 2..=65599, then a fmt-1 chunk (delta 5, 2 bytes, type 9) on every id, then fmt-2 chunks in the 3-byte form on 64..=319: message #{} (chunk stream id {}) decoded as (ts, type, msid, data) {:?}, expected {:?}; {} messages decoded, {} expected",
+                    k, if k < 65598 { k as u32 + 2 } else if k < 2 * 65598 { (k - 65598) as u32 + 2 } else { (k - 2 * 65598) as u32 + 64 }, g, e, got.len(), expect.len())); } }
+            Err(e) => witness(format!("[c06] conformant stream over every chunk stream id 2..=65599 (full header, then fmt 1, then fmt 2 in the 3-byte form on 64..=319): real deserializer failed: {}", e)),
+        }
+    }
     let mut rng = Rng(seed ^ 0xC06);
     for round in 0..600 {
         let mut mcs = 128usize;
